@@ -358,7 +358,13 @@ def gkf_text(net, values=None):
                     a.append('extern="%s"' % xml_escape(ob["extern"]))
                 o.append("  <%s %s />\n" % (t, " ".join(a)))
             if cl.get("cov") is not None:
-                o.append(cov_text(cl["cov"]))
+                cov = cl["cov"]
+                if net.get("deg"):
+                    # rows of values written in degrees are expected in arc seconds (1 cc = 0.324")
+                    C = np.array(cov["C"], float)
+                    f = np.array([0.324 if ob["t"] in ANGULAR else 1.0 for ob in cl["obs"]])
+                    cov = {"band": cov["band"], "C": (C * np.outer(f, f)).tolist()}
+                o.append(cov_text(cov))
             o.append("</obs>\n")
         elif k == "hdiff":
             o.append("<height-differences>\n")
